@@ -711,6 +711,16 @@ class Holds(Monitor):
             self.H.clear()
         elif name == 'force_trigger_tasks':
             self.manual.update(_ids(kw))
+            # "until it is released or manually triggered": the statement
+            # leaves open whether a manual trigger also ends the hold (cylc
+            # releases the triggered instance); the reference follows the
+            # scheduler for the triggered instances only
+            if w.running:
+                held_now = {(n, str(p))
+                            for n, p in w.schd.pool.tasks_to_hold}
+                for i in _ids(kw):
+                    if i not in held_now:
+                        self.H.discard(i)
 
     def after(self, w: World, ev: tuple) -> List[dict]:
         out, self.bad = self.bad, []
